@@ -127,7 +127,7 @@ def main():
         ],
         "checks": checks,
         "not_applicable": na,
-        "notes": "Exit codes of ./check: 0 held, 1 violation (VIOLATION line), 2 inconclusive (build failure / timeout). VERIF_SEED selects the rapid seed (0/unset = fixed default). Known findings: KNOWN_FINDINGS.txt.",
+        "notes": "Exit codes of ./check: 0 held, 1 violation (VIOLATION line), 2 inconclusive (build failure / timeout). VERIF_SEED selects the rapid seed (0/unset = fixed default). Known findings: KNOWN_FINDINGS.txt. evidence/thorough/ keeps the evidence of the last complete thorough-tier run on the unchanged tree (the files in evidence/ are rewritten by every run). seeded/ holds 260 independently seeded changes with the checks that catch them (DESIGN.md 10.6).",
     }
     json.dump(m, open(os.path.join(ROOT, "MANIFEST.json"), "w"), indent=1)
     print(f"{len(checks)} checks, {len(na)} not_applicable")
